@@ -13,6 +13,7 @@ From TS Require Import Spec.Lexers Spec.C15Spec Spec.C15Render.
 From TS Require Proofs.C15_Front Proofs.C15_Replace Proofs.C15 Proofs.C15_Render Proofs.C15_Kotlin Proofs.C15_Go Proofs.C15_Swift Proofs.C15_Python Proofs.C15_TypeScript.
 From TS Require Import Spec.C15RenderScPy.
 From TS Require Proofs.C15_ScalaItem.
+From TS Require Proofs.C15_PythonItem.
 Import ListNotations.
 
 (* ---- front end (after the repair of parse_comment_attrs): a doc attribute with value v - which is what `/// v`,
@@ -468,3 +469,47 @@ Theorem C15_sc_item_line_free : forall (cfg : sc_config),
     c15_contained C15sc LCode (mark (c15_file_pieces C15sc parts)) = true.
 Proof. exact Proofs.C15_ScalaItem.C15_sc_item_line_free. Qed.
 Print Assumptions C15_sc_item_line_free.
+
+(* ======================= Python WITHOUT the neutrality hypothesis =======================
+   [c15_py_item_ok it] (Spec/C15RenderScPy.v, decidable).  python.rs prints the JSON key of a field
+   (`Field(alias="key")`) and the wire name of a variant (the members of the (str, Enum) classes, the Types class of a
+   tagged enum) RAW between double quotes, and derives attribute names (convert_case Snake), Types members (Snake,
+   then to_uppercase), unit-enum members (to_uppercase) and constant names (to_snake_case, to_uppercase) through
+   Unicode-table functions.  The class: the names that go through these functions - a field's Rust name, a variant's
+   Rust name and wire name - are ASCII strings over [A-Za-z0-9_-] (a constant's name over [A-Za-z0-9_]); a variant's
+   wire name is non-empty; a field's key is a non-empty string without `#`, quotes, backslash and control characters
+   (c15_ident_ok); struct / enum / alias names, generic parameters, tag and content keys and the identifiers of all types
+   are free of `#` and quotes.  [unicode_ok uc]: the case tables are right on ASCII (Model/Unicode.v; true of the
+   executable tables, uc_exec_ok).  With type_mappings targets free of `#` and quotes, for every printer state (imports,
+   TypeVars, custom translations collected so far): the text py_write_item prints - helper classes, pydantic classes with
+   their Field(..) / Annotated[..] decorations and model_config line, (str, Enum) classes, Types class + variant classes +
+   Union alias, aliases, constants - is code parts and comment fragments carrying exactly the documented positions of
+   [c15_py_item_sites it] in this order, each as written in its form, and it is contained iff every `# ` string (the doc
+   of a tagged enum) is free of LF / CR; no hypothesis on the code parts is left. ---- *)
+Theorem C15_py_item : forall (uc : unicode) (cfg : py_config),
+  unicode_ok uc ->
+  c15_mappings_plain C15py (py_type_mappings cfg) = true ->
+  forall it st text st',
+  c15_py_item_ok it = true ->
+  py_write_item uc cfg it st = Ok (text, st') ->
+  exists parts,
+    text = text_of (c15_file_pieces C15py parts) /\
+    docs_of (c15_file_pieces C15py parts) = map (c15_site_text C15py) (c15_py_item_sites it) /\
+    c15_contained C15py LCode (mark (c15_file_pieces C15py parts)) = forallb (c15_site_ok C15py) (c15_py_item_sites it).
+Proof. exact Proofs.C15_PythonItem.C15_py_item_stmt. Qed.
+Print Assumptions C15_py_item.
+
+(* ---- Python, one item whose doc strings are free of line breaks (every parsed item): contained ---- *)
+Theorem C15_py_item_line_free : forall (uc : unicode) (cfg : py_config),
+  unicode_ok uc ->
+  c15_mappings_plain C15py (py_type_mappings cfg) = true ->
+  forall it st text st',
+  c15_py_item_ok it = true ->
+  Forall (fun d => safe_line eol_lf_cr d = true) (c15_item_docs it) ->
+  py_write_item uc cfg it st = Ok (text, st') ->
+  exists parts,
+    text = text_of (c15_file_pieces C15py parts) /\
+    docs_of (c15_file_pieces C15py parts) = map (c15_site_text C15py) (c15_py_item_sites it) /\
+    c15_contained C15py LCode (mark (c15_file_pieces C15py parts)) = true.
+Proof. exact Proofs.C15_PythonItem.C15_py_item_line_free. Qed.
+Print Assumptions C15_py_item_line_free.
